@@ -27,7 +27,7 @@ def demo(tree, script):
 
 
 def confirm(outdir, prop):
-    for i in (1, 2, 3):
+    for i in range(1, 10):
         diff = os.path.join(outdir, f"m{i}.diff")
         dm = os.path.join(outdir, f"m{i}_demo.py")
         if not os.path.exists(diff):
